@@ -55,6 +55,25 @@ func renderNative(v interface{}) string {
 	return sb.String()
 }
 
+// apiNative reads a container through Count/Keys/Get only and returns the native tree it denotes.
+func apiNative(c interface{}) interface{} {
+	switch x := c.(type) {
+	case at.List:
+		out := make([]interface{}, 0, x.Count())
+		for i := 0; i < x.Count(); i++ {
+			out = append(out, apiNative(x.Get(i)))
+		}
+		return out
+	case at.Object:
+		out := map[string]interface{}{}
+		for _, k := range x.Keys().StringSlice() {
+			out[k] = apiNative(x.Get(k))
+		}
+		return out
+	}
+	return c
+}
+
 // hasContainer reports whether an anytype container hides anywhere inside a native tree.
 func hasContainer(v interface{}) bool {
 	switch x := v.(type) {
@@ -418,6 +437,12 @@ func c13Run(v *spec.V, mods []c13Mod) (msg, sig string, applied bool, final stri
 		if sm := shallowMatches(s.c, shallowOf(s.c)); sm != "" {
 			return sm, "native/shallow", true, ""
 		}
+		// ... the deep one too: compared with a walk through Count/Keys/Get (lesson of round 10: an export that is
+		// memoised inside the container must not survive a later change of the container or of a nested one)
+		var viaAPI, fresh string
+		if pn, _ := try(func() { viaAPI, fresh = renderNative(apiNative(s.c)), renderNative(deepOf(s.c)) }); !pn && viaAPI != fresh {
+			return fmt.Sprintf("tree %s: after %v the fresh Native* export is %s, the container read through Count/Keys/Get holds %s", v, m, fresh, viaAPI), "native/deep-stale", true, ""
+		}
 	}
 	f := c13Snapshot(&s)
 	return "", "", true, f.src + "|" + f.cont + "|" + f.deep + "|" + f.shallow
@@ -548,7 +573,7 @@ func runC13(c *ev.Ctx) {
 	}
 	en := spec.NewEnum([]*spec.V{spec.NilV, spec.B(true), spec.I(1), spec.F(1.5), spec.S("s")}, []string{"", "a", "b"})
 	mods := c13AllMods()
-	c.Rule(fmt.Sprintf("native trees = every map[string]any / []any tree with <= %d nodes, depth <= 3 over scalars {nil,true,1,1.5,\"s\"} and keys {\"\",a,b}, empty maps/slices at every position included, plus %s. Fidelity: container built from the native value matches it, Native* export contains no container at any depth and is deep-equal to the source (for sources whose empty slices/maps are non-nil the export is compared with reflect.DeepEqual, which tells nil from empty; nil inputs are not judged on that point), also for the same content built by Add/Set; Dict()/Slice() hold exactly what Get returns. Aliasing (explicit-state search): every modification sequence of length 1 on all trees and of length 2 on trees with <= %d nodes out of %d modifications (assign / delete / overwrite / append-into-spare-capacity at every node of the source value, of the Native* export and of the Dict/Slice export; %d container mutations incl. nested SetTF and mutation of a nested container through an exported handle): after every step every other party keeps its previous rendering. states = distinct final snapshots, transitions = modification steps executed on the implementation.", nodes1, "all 12 typed map/slice flavours with 0..2 entries at the root and nested", nodes2, len(mods), len(c13ContMods)))
+	c.Rule(fmt.Sprintf("native trees = every map[string]any / []any tree with <= %d nodes, depth <= 3 over scalars {nil,true,1,1.5,\"s\"} and keys {\"\",a,b}, empty maps/slices at every position included, plus %s. Fidelity: container built from the native value matches it, Native* export contains no container at any depth and is deep-equal to the source (for sources whose empty slices/maps are non-nil the export is compared with reflect.DeepEqual, which tells nil from empty; nil inputs are not judged on that point), also for the same content built by Add/Set; Dict()/Slice() hold exactly what Get returns. Aliasing (explicit-state search): every modification sequence of length 1 on all trees and of length 2 on trees with <= %d nodes out of %d modifications (assign / delete / overwrite / append-into-spare-capacity at every node of the source value, of the Native* export and of the Dict/Slice export; %d container mutations incl. nested SetTF and mutation of a nested container through an exported handle): after every step every other party keeps its previous rendering, and a fresh Native* export equals the container read through Count/Keys/Get. states = distinct final snapshots, transitions = modification steps executed on the implementation.", nodes1, "all 12 typed map/slice flavours with 0..2 entries at the root and nested", nodes2, len(mods), len(c13ContMods)))
 	c.Assume("a nested container handle held by Dict()/Slice() is the container's own element: changes through it are visible on both sides by design")
 	c13Flavours(c)
 	stop := func() bool { return c.Expired() || c.TooMany() }
